@@ -72,6 +72,8 @@ type verifHooks struct {
 	changes int
 	lastTo  State
 	backoff int
+	lastDur time.Duration // the duration the back-off rule returned last
+	clock   *time.Time    // the latest clock reading
 }
 
 func verifTrip(c Counts) bool {
@@ -91,11 +93,13 @@ func verifBreaker(h *verifHooks) *Breaker {
 	b.backoffDurationFunc = func(c Counts) time.Duration {
 		d := zz.NondetDuration("backoff")
 		zz.Assume(d >= 0 && d < 1<<50)
+		h.lastDur = d
 		return d
 	}
 	b.onStateChange = func(prev, to State) { h.changes++; h.lastTo = to }
 	b.onBackoff = func(time.Duration, time.Time) { h.backoff++ }
 	last := time.Unix(0, 0)
+	h.clock = &last
 	b.clock = verifClock{last: &last}
 	b.state = State(zz.NondetInt("state"))
 	zz.Assume(b.state >= 0 && b.state <= 2)
@@ -169,7 +173,11 @@ func VerifC15After() {
 	zz.Assume(g != b.generation || b.state != StateOpen) // admitted in the current generation => not open
 	success := zz.NondetBool("success")
 	st0, gen0, c0, exp0 := b.state, b.generation, b.counts, b.backoffExpires
+	tBefore := *h.clock
 	b.afterRequest(success, g)
+	tAfter := *h.clock
+	// a new back-off runs from the moment of this failure: now + the rule's duration
+	newBackoffOK := zz.And(!b.backoffExpires.Before(tBefore.Add(h.lastDur)), !b.backoffExpires.After(tAfter.Add(h.lastDur)))
 	zz.Assert(b.counts.CurrentRequests == c0.CurrentRequests-1, "in-flight decremented")
 	zz.Assert(b.counts.CurrentRequests >= 0, "in-flight non-negative")
 	stale := g != gen0 || st0 == StateOpen // open can only become half-open here, which bumps the generation
@@ -193,6 +201,7 @@ func VerifC15After() {
 				zz.Assert(b.counts.ConsecutiveSuccesses == 0 && b.counts.ConsecutiveFailures == 0, "trip clears counters")
 				zz.Assert(h.changes == 1 && h.lastTo == StateOpen && h.backoff == 1, "trip hooks")
 				zz.Assert(!b.backoffExpires.IsZero(), "trip sets backoff")
+				zz.Assert(newBackoffOK, "trip: open until the time of the trip plus the back-off duration")
 			} else {
 				zz.Reach("no-trip")
 				zz.Assert(b.state == StateClosed && b.generation == gen0, "no trip stays closed")
@@ -217,6 +226,7 @@ func VerifC15After() {
 			zz.Reach("reopen")
 			zz.Assert(b.state == StateOpen && b.generation == gen0+1, "half-open failure re-opens")
 			zz.Assert(h.backoff == 1 && h.changes == 1, "re-open sets a new backoff")
+			zz.Assert(newBackoffOK, "re-open: open until the time of the failed probe plus the back-off duration")
 			zz.Assert(b.counts.ConsecutiveSuccesses == 0, "re-open: successes cleared")
 		}
 	}
